@@ -8,6 +8,7 @@ import (
 	"time"
 
 	"github.com/scrapli/scrapligo/driver/generic"
+	"github.com/scrapli/scrapligo/driver/netconf"
 	"github.com/scrapli/scrapligo/driver/network"
 	"github.com/scrapli/scrapligo/driver/options"
 
@@ -230,6 +231,143 @@ func scenario(s scn) sched.Scenario {
 	}}
 }
 
+var ncStates = []string{"idle", "reply-arriving", "eof-seen", "eof-pending", "eio-unconsumed", "eio-pending", "after-timeout", "second-seq", "second-conc"}
+
+func ncScenario(s scn, version string) sched.Scenario {
+	return sched.Scenario{Name: "netconf" + version + "/" + s.state + fmt.Sprintf("/onclose=%d/rd=%v/pre=%d/env=%d", s.mode, s.rd, s.b.Pre, s.b.Env), Run: func(w *sched.W) {
+		cfg := cm.Cfg("chan.", "tr.", "nc.")
+		cfg.Tick = s.rd
+		cfg.IdleEnvOnly = true
+		cfg.NoIdleAlt = s.b.Env == 0 || s.b.Pre >= 1000
+		cfg.WantLeaks = true
+		cfg.Grace = 4*s.rd + grace(s.rd)
+		cfg.Horizon = 100*s.rd + 3*grace(s.rd) + 50*s.rd
+		w.Explore(cfg, s.b, func(e *sched.Env) {
+			caps := []string{dev.Cap10}
+			if version == "1.1" {
+				caps = append(caps, dev.Cap11)
+			}
+			srv := &dev.NCServer{Hello: dev.HelloDoc(caps, "4")}
+			srv.Behave = func(i int, req dev.NCReq) (string, dev.NCBehavior) {
+				if s.state == "after-timeout" || s.state == "reply-arriving" {
+					return dev.OKReply(req.ID), dev.ReplyHeld
+				}
+				return dev.OKReply(req.ID), dev.ReplyNow
+			}
+			tr := dev.NewFake(e, srv)
+			srv.Out = tr.Inject
+			tr.NextEnd = srv.NextEnd
+			tr.OnClose = s.mode
+			timeout := 6*s.rd + s.rd/2
+			type closeRes struct {
+				err      error
+				t0, t1   time.Duration
+				returned bool
+			}
+			var closes [2]closeRes
+			var openErr, setupErr error
+			setupDone := false
+			var d *netconf.Driver
+			doClose := func(i int) {
+				closes[i].t0 = e.Now()
+				err := d.Close()
+				closes[i] = closeRes{err: err, t0: closes[i].t0, t1: e.Now(), returned: true}
+			}
+			second := make(chan struct{})
+			e.Go("client", func() {
+				var err error
+				d, err = netconf.NewDriver("dev", cm.BaseOpts(tr, s.rd, timeout, 0)...)
+				if err != nil {
+					openErr = err
+					return
+				}
+				if openErr = d.Open(); openErr != nil {
+					return
+				}
+				switch s.state {
+				case "reply-arriving", "after-timeout":
+					if _, err := d.Get(""); err == nil {
+						setupErr = fmt.Errorf("get without reply succeeded")
+						return
+					}
+					if s.state == "reply-arriving" {
+						e.OpenWindow()
+						srv.Release(0)
+					}
+				case "eof-seen":
+					tr.Loss, tr.LossAt = dev.LossEOF, tr.Delivered
+					time.Sleep(4 * s.rd)
+				case "eof-pending":
+					e.OpenWindow()
+					tr.Loss, tr.LossAt = dev.LossEOF, tr.Delivered
+				case "eio-unconsumed":
+					tr.Loss, tr.LossAt = dev.LossEIO, tr.Delivered
+					time.Sleep(4 * s.rd)
+				case "eio-pending":
+					e.OpenWindow()
+					tr.Loss, tr.LossAt = dev.LossEIO, tr.Delivered
+				}
+				setupDone = true
+				if e.WindowFrom == 0 {
+					e.OpenWindow()
+				}
+				if s.state == "second-conc" {
+					close(second)
+				}
+				doClose(0)
+				if s.state == "second-seq" {
+					doClose(1)
+				}
+			})
+			if s.state == "second-conc" {
+				e.Go("client2", func() {
+					<-second
+					doClose(1)
+				})
+			}
+			e.OnFinish(func() {
+				if openErr != nil || setupErr != nil {
+					e.Violate("c07:setup-failed", "open=%v setup=%v", openErr, setupErr)
+					return
+				}
+				nclose := 1
+				if strings.HasPrefix(s.state, "second") {
+					nclose = 2
+				}
+				for i := 0; i < nclose; i++ {
+					c := closes[i]
+					e.Observe("close%d ret=%v err=%s dt=%v", i, c.returned, cm.ErrClass(c.err), c.t1-c.t0)
+				}
+				e.Observe("implClose=%d leaked=%v", tr.CloseCalls, e.Leaked)
+				if e.Verdict != "" || !setupDone {
+					e.Violate("c07:nc-close-"+e.Verdict+":"+s.state, "netconf Close did not return (setupDone=%v): %s", setupDone, e.HangInfo)
+					return
+				}
+				for i := 0; i < nclose; i++ {
+					c := closes[i]
+					if !c.returned {
+						e.Violate("c07:nc-close-hang:"+s.state, "close %d never returned: %s", i, e.HangInfo)
+						return
+					}
+					limit := grace(s.rd) + 4*s.rd + 3*cfg.Tick
+					if c.t1-c.t0 > limit {
+						e.Violate("c07:nc-close-slow:"+s.state, "close %d took %v > %v", i, c.t1-c.t0, limit)
+					}
+				}
+				if tr.CloseCalls == 0 {
+					e.Violate("c07:nc-transport-not-closed", "Implementation.Close never called")
+				}
+				for _, l := range e.Leaked {
+					if s.mode == dev.CloseStaysBlocked && (strings.Contains(l, "Transport).read") || strings.Contains(l, "Channel).Close.func1")) {
+						continue
+					}
+					e.Violate("c07:nc-goroutine-leak:"+strings.Fields(l)[0], "library goroutine alive after Close + grace: %v (all: %v)", l, e.Leaked)
+				}
+			})
+		})
+	}}
+}
+
 type hangupSource struct{ f func() bool }
 
 func (h hangupSource) Actions() []sched.EnvAction { h.f(); return nil }
@@ -253,6 +391,21 @@ func scenarios(tier string) []sched.Scenario {
 					if tier == "thorough" {
 						// every interleaving of thread steps and deliveries inside the Close window
 						out = append(out, scenario(scn{drv, st, mode, rd, sched.Bounds{Pre: 1000, Env: 1000, Total: 2000, MaxExecs: 2000000}}))
+					}
+				}
+			}
+		}
+	}
+	for _, v := range []string{"1.0", "1.1"} {
+		for _, st := range ncStates {
+			for _, mode := range []dev.CloseMode{dev.CloseEOF, dev.CloseEIO, dev.CloseStaysBlocked} {
+				for _, rd := range rds {
+					if tier != "thorough" && (v == "1.0" && st != "idle" || rd == 250*time.Microsecond) {
+						continue
+					}
+					out = append(out, ncScenario(scn{"netconf", st, mode, rd, sched.Bounds{Pre: pre, Env: pre - 1, Total: pre}}, v))
+					if tier == "thorough" {
+						out = append(out, ncScenario(scn{"netconf", st, mode, rd, sched.Bounds{Pre: 1000, Env: 1000, Total: 2000, MaxExecs: 2000000}}, v))
 					}
 				}
 			}
